@@ -47,7 +47,7 @@ class N:
         if k == 'Cls':
             return 'Cls%s' % C.show(self.iv, 3)
         if k == 'Raw':
-            return 'Raw(%r)' % self.text
+            return ('Lib(%r)' if self.d.get('lib') else 'Raw(%r)') % self.text
         if k in ('Cat', 'Alt'):
             return k + '[' + ','.join(x.shape() for x in self.xs) + ']'
         if k == 'Quant':
@@ -82,6 +82,12 @@ def Cls(iv, desc=None):
 
 def Raw(text):
     return EMPTY if text == '' else N('Raw', text=text)
+
+
+def Lib(text):
+    """an operand built by another part of the library (a meta pattern): opaque like Raw, but well-formed by
+    construction, so compositions over it are judged like any other composition"""
+    return EMPTY if text == '' else N('Raw', text=text, lib=True)
 
 
 class Unspec(Exception):
